@@ -23,11 +23,22 @@ func c29Seq1(c *core.Ctx, work string, i int) {
 	script := genScript(r, keys, c.Pick(160, 300), []int{0, 24, 64, 65, 300}, true)
 	// more drops: after every third check add a multi-prefix drop
 	var s2 []scriptOp
+	nMulti := 0
 	for j, op := range script {
 		s2 = append(s2, op)
 		if op.Kind == "check" && j%3 == 0 {
 			k := keys[r.Intn(len(keys))]
-			s2 = append(s2, scriptOp{Kind: "dropprefix", Prefix: append([]byte{}, k[:1+r.Intn(len(k))]...)}, scriptOp{Kind: "check"})
+			op := scriptOp{Kind: "dropprefix", Prefix: append([]byte{}, k[:1+r.Intn(len(k))]...)}
+			// one call with several prefixes (short ones, so that undropped keys lie between them)
+			for n := r.Intn(3); n > 0; n-- {
+				k2 := keys[r.Intn(len(keys))]
+				op.Prefixes = append(op.Prefixes, append([]byte{}, k2[:1+r.Intn(min(2, len(k2)))]...))
+			}
+			if len(op.Prefixes) > 0 {
+				op.Prefix = op.Prefix[:1+r.Intn(min(2, len(op.Prefix)))]
+				nMulti++
+			}
+			s2 = append(s2, op, scriptOp{Kind: "check"})
 		}
 	}
 	dir := filepath.Join(work, fmt.Sprintf("seq%d", i))
@@ -69,6 +80,7 @@ func c29Seq1(c *core.Ctx, work string, i int) {
 		}
 	}
 	c.Count("drop.sequential_drops", int64(nd))
+	c.Count("drop.sequential_multi_prefix_drops", int64(nMulti))
 	c.Distinct(fmt.Sprintf("sequential|%s|drops=%d", name, min(nd/10, 5)))
 	_ = core.Root
 }
